@@ -235,7 +235,7 @@ let bstep_of (op : string) (d : int) (a : int) (b : int) (arg : string) : bstep 
   | "Mul" -> (Some (BsMul (n d, n a, n b)), None) | "Quo" -> (Some (BsQuo (n d, n a, n b)), None)
   | "Rem" -> (Some (BsRem (n d, n a, n b)), None)
   | "QuoRem" -> let ri = int_of_string arg in (Some (BsQuoRem (n d, n ri, n a, n b)), Some ri)
-  | "DivMod" -> (None, Some (int_of_string arg))
+  | "DivMod" | "GCDx" | "GCDy" -> (None, Some (int_of_string arg))
   | "Lsh" -> (Some (BsLsh (n d, n a, z_of_big_dec arg)), None) | "Rsh" -> (Some (BsRsh (n d, n a, z_of_big_dec arg)), None)
   | "Sqrt" -> (Some (BsSqrt (n d, n a)), None)
   | _ -> (None, None)
